@@ -232,6 +232,13 @@ class SymSpec(object):
             return mkbool(z3.Or(za == zb, z3.And(sym.ISNAN(za), sym.ISNAN(zb))))
         return mkbool(za == zb)
 
+    def map_not_nan(self, arr):
+        """boolean array: the cell is a valid (non-NaN) value"""
+        f = arr.snapshot()
+        if arr.elem != "real":
+            return symnp.full(arr.shape, True, bool)
+        return symnp.ndarray.from_fn(lambda *i: z3.Not(sym.ISNAN(f(*i))), arr._shape, "b", "bool")
+
     def snapshot(self, arr):
         """frozen copy of an array's current content (for old(.) in postconditions)"""
         r = symnp.ndarray.from_fn(arr.snapshot(), arr._shape, arr.kind, arr.elem)
